@@ -485,3 +485,101 @@ pub fn guard_val<T>(f: impl FnOnce() -> T) -> O<T> {
         Err(_) => O::Panic(last_panic()),
     }
 }
+
+// -------------------------------------------------------------------------------------------------
+// Environment shared by the engines
+
+pub struct Env {
+    pub ctx: Ctx,
+    pub only_root: Option<String>,
+    pub machinery_error: AtomicBool,
+}
+
+impl Env {
+    pub fn new(ctx: Ctx, only_root: Option<String>) -> Env {
+        Env { ctx, only_root, machinery_error: AtomicBool::new(false) }
+    }
+    pub fn want(&self, root: &str) -> bool {
+        match &self.only_root {
+            None => true,
+            Some(r) => r == root,
+        }
+    }
+    /// The reference and the semantic oracle disagree, or the harness itself failed: never a verdict.
+    pub fn machinery(&self, what: &str) {
+        self.machinery_error.store(true, Ordering::Relaxed);
+        self.ctx.note(&format!("MACHINERY: {}", what));
+    }
+    pub fn has_machinery_error(&self) -> bool {
+        self.machinery_error.load(Ordering::Relaxed)
+    }
+    pub fn tier(&self) -> Tier {
+        self.ctx.tier
+    }
+    pub fn thorough(&self) -> bool {
+        self.ctx.tier.thorough()
+    }
+    pub fn case(&self, root: &str, detail: Value) -> Value {
+        json!({"root": root, "tier": self.ctx.tier.name(), "seed": self.ctx.seed, "detail": detail})
+    }
+}
+
+// -------------------------------------------------------------------------------------------------
+// JSON views of serialized artefacts (the view the other party has)
+
+/// Paths of all big-integer leaves ({"radix":16,"value":"<hex>"} objects of rug's serde format).
+pub fn int_leaf_paths(v: &Value) -> Vec<Vec<String>> {
+    fn rec(v: &Value, pre: &mut Vec<String>, out: &mut Vec<Vec<String>>) {
+        match v {
+            Value::Object(m) => {
+                if m.len() == 2 && m.contains_key("radix") && m.get("value").map(|x| x.is_string()).unwrap_or(false) {
+                    out.push(pre.clone());
+                    return;
+                }
+                for (k, x) in m {
+                    pre.push(k.clone());
+                    rec(x, pre, out);
+                    pre.pop();
+                }
+            }
+            Value::Array(a) => {
+                for (i, x) in a.iter().enumerate() {
+                    pre.push(i.to_string());
+                    rec(x, pre, out);
+                    pre.pop();
+                }
+            }
+            _ => {}
+        }
+    }
+    let mut out = Vec::new();
+    rec(v, &mut Vec::new(), &mut out);
+    out
+}
+pub fn json_get<'a>(v: &'a Value, path: &[String]) -> Option<&'a Value> {
+    let mut cur = v;
+    for p in path {
+        cur = match cur {
+            Value::Object(m) => m.get(p)?,
+            Value::Array(a) => a.get(p.parse::<usize>().ok()?)?,
+            _ => return None,
+        };
+    }
+    Some(cur)
+}
+pub fn json_set(v: &mut Value, path: &[String], new: Value) -> bool {
+    let mut cur = v;
+    for p in path {
+        cur = match cur {
+            Value::Object(m) => match m.get_mut(p) { Some(x) => x, None => return false },
+            Value::Array(a) => match p.parse::<usize>().ok().and_then(|i| a.get_mut(i)) { Some(x) => x, None => return false },
+            _ => return false,
+        };
+    }
+    *cur = new;
+    true
+}
+/// Path with array positions replaced by `*` (class of a leaf, used in violation signatures).
+pub fn path_class(path: &[String]) -> String {
+    path.iter().map(|p| if p.chars().all(|c| c.is_ascii_digit()) { "*".to_string() } else { p.clone() }).collect::<Vec<_>>().join("/")
+}
